@@ -16,7 +16,7 @@ ASSUMPTIONS = [
     "end-to-end bound only for strategies run with max_live_trade_count=1, no force, no removals with price reduction in the file",
     "tolerance 0.011 (two 2-dp roundings)",
 ]
-WEIGHTS = [("plain", 3), ("deep", 3), ("hostile", 2), ("multi", 1)]
+WEIGHTS = [("plain", 3), ("deep", 3), ("hostile", 2), ("multi", 1), ("recorded", 1)]
 
 
 def _limits(rng):
